@@ -254,3 +254,6 @@ def required_labels(tier):
 
 
 KNOWN_PREDICATES = {}
+
+
+RULE = RULE + " " + ('Programs also contain step texts that are bound per step type (one text: passing @given, failing @then, no @when definition) and converters raising KeyError.')
